@@ -97,9 +97,25 @@ def analyze(ctx, rules):
             kind = m.group(1) or m.group(2) or m.group(3)
             if t.get("exp_outer") in ("debug_assert!", "trace!", "debug!", "info!", "warn!", "error!", "assert!"):
                 continue
+            # the driving call of a loop: every trip passes it, and its answer decides whether the loop goes on (the result is
+            # matched on, and one arm leaves the loop)
             driver = False
+            exits_on = set()
+            cur = t.get("target")
+            n_ = 0
+            while cur is not None and n_ < 6:
+                n_ += 1
+                tt = fn.term(cur)
+                if tt["k"] == "goto":
+                    cur = tt["target"]
+                    continue
+                if tt["k"] == "switch" and tt["discr"].get("k") in ("copy", "move"):
+                    dd = fn.single_def(tt["discr"]["p"]["l"])
+                    if dd and dd["kind"] == "assign" and dd["stmt"]["rv"]["k"] == "discr" and dd["stmt"]["rv"]["p"]["l"] == t["dest"]["l"]:
+                        exits_on = {tb for _, tb in tt["targets"]} | {tt["otherwise"]}
+                break
             for h, body in loops.items():
-                if bb in body and all(fn.dominates(bb, a) for a, b in backs if b == h):
+                if bb in body and all(fn.dominates(bb, a) for a, b in backs if b == h) and any(x not in body for x in exits_on):
                     driver = True
             if driver:
                 continue
@@ -108,8 +124,8 @@ def analyze(ctx, rules):
                 pv = M.Prov(fn)
             try:
                 e_ = pv.operand(t["args"][0]) if t["args"] else None
-                if e_ is not None and any(re.search(r"clone::Clone>::clone$", c_[1]) for c_ in M.expr_calls(e_)):
-                    continue
+                if e_ is not None and any(re.search(r"^<(std|core)::(str::(CharIndices|Chars)|slice::Iter|vec::IntoIter|iter::\w+|ops::Range\w*|collections::\w+::\w*Iter\w*)<.*> as std::clone::Clone>::clone$", c_[1]) for c_ in M.expr_calls(e_)):
+                    continue        # (the clone of an *iterator*, not a clone somewhere in the value's history)
             except Exception:
                 pass
             for o, _ in (owners(F, fn) or [(fn, None)]):
